@@ -193,8 +193,9 @@ class HTTP(BaseComponent):
 
                 self.fire(write(sock, body))
 
-                if res.chunked:
-                    self.fire(write(sock, b'0\r\n\r\n'))
+            if res.chunked and not res.stream:
+                # the last-chunk is due whether or not there was anything to send
+                self.fire(write(sock, b'0\r\n\r\n'))
 
             if not res.stream:
                 if res.close:
